@@ -4,7 +4,10 @@ exclusive registrations) are built with the real classes and every lookup is
 compared with an independent reference: a context denotes a list of LAYERS,
 nearest first; a variable is the value of the first layer that binds it
 (null included), functions are gathered layer by layer until an exclusive
-layer."""
+layer. Each forest is then driven through a HISTORY of writes (assignment,
+deletion, child creation, registration - exclusive or not -, function
+removal) on random contexts of the forest, and after every step every context
+is compared with the reference again."""
 import json
 import random
 import sys
@@ -54,13 +57,38 @@ def gen(rnd, depth, fds):
     return ('linked', gen(rnd, depth - 1, fds), gen(rnd, depth - 1, fds))
 
 
+class Ref:
+    """Reference denotation of one real context: a chain of GROUPS, nearest
+    first; a group is the list of atomic layers that are merged side by side
+    (one for a plain context, the members' for a multi-context)."""
+
+    def __init__(self, kind, own=None, parent=None, members=None,
+                 linked=None):
+        self.kind, self.own, self.parent = kind, own, parent
+        self.members, self.linked = members, linked
+
+    def chain(self):
+        if self.kind == 'ctx':
+            return [[self.own]] + (self.parent.chain() if self.parent
+                                   else [])
+        if self.kind == 'multi':
+            chains = [m.chain() for m in self.members]
+            return [sum((c[k] for c in chains if k < len(c)), [])
+                    for k in range(max(len(c) for c in chains))]
+        return self.linked.chain() + (self.parent.chain() if self.parent
+                                      else [])
+
+
+KNOWN = []      # every (real context, Ref) of the forest under test
+
+
 def build(spec):
-    """-> (real context, reference layers)"""
+    """-> (real context, Ref)"""
     if spec is None:
-        return None, []
+        return None, None
     if spec[0] == 'ctx':
         _, parent, data, funcs, excl = spec
-        p, pl = build(parent)
+        p, pr = build(parent)
         c = contexts.Context(p, convention=CONV)
         for k, v in data.items():
             c[k] = v
@@ -72,30 +100,33 @@ def build(spec):
                 c.register_function(fd, exclusive=nm in excl)
             own.funcs[nm] = set(fdl)
         own.excl = set(excl)
-        return c, [own] + pl
-    if spec[0] == 'multi':
+        out = c, Ref('ctx', own=own, parent=pr)
+    elif spec[0] == 'multi':
         built = [build(s) for s in spec[1]]
-        mc = contexts.MultiContext([b[0] for b in built])
-        return mc, merge([b[1] for b in built])
-    _, parent, linked = spec
-    p, pl = build(parent)
-    l, ll = build(linked)
-    return contexts.LinkedContext(p, l), ll + pl
+        out = (contexts.MultiContext([b[0] for b in built]),
+               Ref('multi', members=[b[1] for b in built]))
+    else:
+        _, parent, linked = spec
+        p, pr = build(parent)
+        l, lr = build(linked)
+        out = contexts.LinkedContext(p, l), Ref('linked', parent=pr,
+                                                linked=lr)
+    KNOWN.append(out)
+    return out
 
 
-def merge(chains):
-    """Members side by side: the k-th layers are merged (first member wins a
-    variable, functions are united, exclusive if any member is)."""
+def merge(chain):
+    """Groups -> merged layers (first atomic layer wins a variable, functions
+    are united, exclusive if any atomic layer is)."""
     out = []
-    for k in range(max(len(c) for c in chains)):
+    for group in chain:
         lay = Layer()
-        for c in chains:
-            if k < len(c):
-                for n, v in c[k].data.items():
-                    lay.data.setdefault(n, v)
-                for n, fs in c[k].funcs.items():
-                    lay.funcs.setdefault(n, set()).update(fs)
-                lay.excl |= c[k].excl
+        for a in group:
+            for n, v in a.data.items():
+                lay.data.setdefault(n, v)
+            for n, fs in a.funcs.items():
+                lay.funcs.setdefault(n, set()).update(fs)
+            lay.excl |= a.excl
         out.append(lay)
     return out
 
@@ -118,6 +149,109 @@ def ref_collect(layers, name, pred):
     return out
 
 
+def compare(ctx, ref, fds):
+    """Every query of the property on one context against the reference;
+    -> None or (query, observed, expected)."""
+    layers = merge(ref.chain())
+    for name in NAMES:
+        got = ctx.get_data(name, 'DEFAULT')
+        want = ref_get(layers, name, 'DEFAULT')
+        if got != want or (got is None) != (want is None):
+            return 'get_data(%r)' % name, got, want
+        got, want = ctx[name], ref_get(layers, name, None)
+        if got != want or (got is None) != (want is None):
+            return 'ctx[%r]' % name, got, want
+        got = ctx.get_data(name, 'DEFAULT', ask_parent=False)
+        want = ref_get(layers[:1], name, 'DEFAULT')
+        if got != want or (got is None) != (want is None):
+            return 'get_data(%r, ask_parent=False)' % name, got, want
+        if (name in ctx) != (norm(name) in (layers[0].data
+                                            if layers else {})):
+            return '%r in ctx' % name, name in ctx, not (name in ctx)
+    names = lambda ls: [sorted(f.payload.__name__ for f in l)   # noqa: E731
+                        for l in ls]
+    for nm in FUNCS:
+        for pred in (lambda f: True, lambda f: f is fds[nm][0]):
+            got = [set(l) for l in ctx.collect_functions(
+                nm, (lambda fd, c, _p=pred: _p(fd)))]
+            want = ref_collect(layers, nm, pred)
+            if got != want:
+                return 'collect_functions(%r)' % nm, names(got), names(want)
+        got = ctx.get_functions(nm)
+        want = (layers[0].funcs.get(nm, set()), nm in layers[0].excl)
+        if (set(got[0]), bool(got[1])) != want:
+            return ('get_functions(%r)' % nm, (names([got[0]]), got[1]),
+                    (names([want[0]]), want[1]))
+    # the python-style spelling resolves through the naming convention,
+    # with the same layering and the same exclusiveness
+    got = [set(l) for l in ctx.collect_functions('h_k', use_convention=True)]
+    want = ref_collect(layers, 'hK', lambda f: True)
+    if got != want:
+        return ("collect_functions('h_k', use_convention=True)", names(got),
+                names(want))
+    if layers and set(ctx.keys()) != set(layers[0].data):
+        return 'keys()', sorted(ctx.keys()), sorted(layers[0].data)
+    return None
+
+
+def step(rnd, fds, log):
+    """One operation of a history on a random context of the forest, applied
+    to the real context and to the reference. -> None or a failure."""
+    idx = rnd.randrange(len(KNOWN))
+    ctx, ref = KNOWN[idx]
+    group = ref.chain()[0]      # the context's own (possibly merged) layer
+    op = rnd.choice(['set', 'set', 'del', 'child', 'register', 'register',
+                     'delete_function', 'delete_function'])
+    if op == 'set':
+        name, v = rnd.choice(NAMES), rnd.choice([None, 0, 2, 'y'])
+        log.append('ctx#%d[%r] = %r' % (idx, name, v))
+        ctx[name] = v
+        group[0].data[norm(name)] = v
+    elif op == 'del':
+        name = rnd.choice(NAMES)
+        log.append('del ctx#%d[%r]' % (idx, name))
+        bound = [a for a in group if norm(name) in a.data]
+        try:
+            del ctx[name]
+            raised = False
+        except KeyError:
+            raised = True
+        if raised != (not bound):
+            return ('del ctx[%r]' % name,
+                    'KeyError' if raised else 'no error',
+                    'no error' if bound else 'KeyError')
+        for a in bound:
+            del a.data[norm(name)]
+    elif op == 'child':
+        log.append('ctx#%d.create_child_context() -> ctx#%d' % (
+            idx, len(KNOWN)))
+        child = ctx.create_child_context()
+        if child.parent is not ctx:
+            return 'create_child_context().parent', child.parent, ctx
+        KNOWN.append((child, Ref('ctx', own=Layer(), parent=ref)))
+    elif op == 'register':
+        nm = rnd.choice(FUNCS)
+        fd, excl = rnd.choice(fds[nm]), rnd.random() < .3
+        log.append('ctx#%d.register_function(%s, exclusive=%s)' % (
+            idx, fd.payload.__name__, excl))
+        ctx.register_function(fd, exclusive=excl)
+        group[0].funcs.setdefault(nm, set()).add(fd)
+        if excl:
+            group[0].excl.add(nm)
+    else:
+        nm = rnd.choice(FUNCS)
+        fd = rnd.choice(fds[nm])
+        log.append('ctx#%d.delete_function(%s)' % (idx, fd.payload.__name__))
+        ctx.delete_function(fd)
+        # (the statement does not say what a removal does to the exclusive
+        # mark; the reference keeps the implemented rule: removing any
+        # overload of a name lifts the layer's exclusiveness for it)
+        for a in group:
+            a.funcs.get(nm, set()).discard(fd)
+            a.excl.discard(nm)
+    return None
+
+
 def main():
     import os
     n_forests = int(sys.argv[1]) if len(sys.argv) > 1 else (
@@ -132,54 +266,32 @@ def main():
             payload.__name__ = '%s%d' % (nm, i)
             fds[nm].append(specs.get_function_definition(payload, name=nm))
     cases = 0
+    steps = 6
     for _ in range(n_forests):
+        del KNOWN[:]
         spec = gen(rnd, 3, fds)
-        ctx, layers = build(spec)
-        for name in NAMES:
-            cases += 1
-            got = ctx.get_data(name, 'DEFAULT')
-            want = ref_get(layers, name, 'DEFAULT')
-            if got != want or (got is None) != (want is None):
-                return fail(cases, spec, 'get_data(%r)' % name, got, want)
-            got, want = ctx[name], ref_get(layers, name, None)
-            if got != want or (got is None) != (want is None):
-                return fail(cases, spec, 'ctx[%r]' % name, got, want)
-            got = ctx.get_data(name, 'DEFAULT', ask_parent=False)
-            want = ref_get(layers[:1], name, 'DEFAULT')
-            if got != want or (got is None) != (want is None):
-                return fail(cases, spec, 'get_data(%r, ask_parent=False)'
-                            % name, got, want)
-            if (name in ctx) != (norm(name) in (layers[0].data
-                                                if layers else {})):
-                return fail(cases, spec, '%r in ctx' % name, name in ctx,
-                            not (name in ctx))
-        for nm in FUNCS:
-            for pred in (lambda f: True, lambda f: f is fds[nm][0]):
-                cases += 1
-                got = [set(l) for l in ctx.collect_functions(
-                    nm, (lambda fd, c, _p=pred: _p(fd)))]
-                want = ref_collect(layers, nm, pred)
-                if got != want:
-                    return fail(cases, spec, 'collect_functions(%r)' % nm,
-                                [sorted(f.payload.__name__ for f in l)
-                                 for l in got],
-                                [sorted(f.payload.__name__ for f in l)
-                                 for l in want])
-        # the python-style spelling resolves through the naming convention,
-        # with the same layering and the same exclusiveness
+        ctx, ref = build(spec)
         cases += 1
-        got = [set(l) for l in ctx.collect_functions(
-            'h_k', use_convention=True)]
-        want = ref_collect(layers, 'hK', lambda f: True)
-        if got != want:
-            return fail(cases, spec, "collect_functions('h_k', "
-                        "use_convention=True)",
-                        [sorted(f.payload.__name__ for f in l) for l in got],
-                        [sorted(f.payload.__name__ for f in l)
-                         for l in want])
-        if layers and set(ctx.keys()) != set(layers[0].data):
-            return fail(cases, spec, 'keys()', sorted(ctx.keys()),
-                        sorted(layers[0].data))
+        bad = compare(ctx, ref, fds)
+        if bad:
+            return fail(cases, spec, [], *bad)
+        # a history of writes on any context of the forest; after every step
+        # every context of the forest is compared again
+        log = []
+        for _s in range(steps):
+            try:
+                bad = step(rnd, fds, log)
+            except Exception as e:     # noqa
+                bad = (log[-1], 'raised %s: %s' % (type(e).__name__, e),
+                       'no error')
+            if bad:
+                return fail(cases, spec, log, *bad)
+            for i, (c, r) in enumerate(KNOWN):
+                cases += 1
+                bad = compare(c, r, fds)
+                if bad:
+                    return fail(cases, spec, log, 'ctx#%d: %s' % (i, bad[0]),
+                                bad[1], bad[2])
     print(json.dumps(dict(status='ok', cases=cases, forests=n_forests)))
 
 
@@ -195,10 +307,13 @@ def show(spec):
     return dict(linked=show(spec[2]), parent=show(spec[1]))
 
 
-def fail(cases, spec, what, got, want):
+def fail(cases, spec, log, what, got, want):
     print(json.dumps(dict(status='failed', cases=cases, query=what,
                           observed=repr(got), expected=repr(want),
-                          forest=show(spec)), default=str)[:3000])
+                          history=log, note='ctx#k: k-th context built, '
+                          'inner contexts first (post-order); children are '
+                          'appended', forest=show(spec)),
+                     default=str)[:4000])
 
 
 main()
